@@ -187,6 +187,20 @@ def env() -> Env:
             E.zones.append((zid, tz[zid]))
         except Exception:  # noqa: BLE001
             E.degraded.append("zone %s not available from the tzdb provider" % zid)
+    # fixed zones that are NOT the canonical for_offset zone of their offset: tz database ids with their own id / name, and a
+    # user-made fixed zone; a value must keep exactly its zone through every operation documented to retain it
+    for zid in ("Etc/GMT+5", "EST", "Etc/UTC", "GMT"):
+        try:
+            z = tz[zid]
+            if z.id == zid:
+                E.zones.append((zid, z))
+        except Exception:  # noqa: BLE001
+            E.degraded.append("zone %s not available from the tzdb provider" % zid)
+    try:
+        from pyoda_time.time_zones._fixed_date_time_zone import _FixedDateTimeZone
+        E.zones.append(("My/Fixed", _FixedDateTimeZone(mk_off(12600), "My/Fixed", "MYF")))
+    except Exception:  # noqa: BLE001
+        E.degraded.append("_FixedDateTimeZone constructor not reachable; no user-made fixed zone in the zone alphabet")
     ENV = E
     return E
 
@@ -901,7 +915,7 @@ def zdt_check(acc, v, zs, rg, case, full):
     bad = []
     if v.offset.seconds != o:
         bad.append(("offset", "offset %r but the zone's offset at the instant is %d s" % (v.offset, o)))
-    if not (v.zone == zone) or v.zone.id != zid:
+    if not (v.zone == zone) or v.zone.id != zid or getattr(v.zone, "name", None) != getattr(zone, "name", None):
         bad.append(("zone", "zone %r, expected %r" % (v.zone, zone)))
     if v.calendar != E.cals[zs.cal]:
         bad.append(("calendar", "calendar %r, model %s" % (v.calendar, zs.cal)))
@@ -984,11 +998,19 @@ def zdt_ops():
         if hasattr(ZonedDateTime, name):
             ops += [(name, 49), (name, -1)]
     ops += [("add_to_max",), ("add_over_max",), ("add_to_min",), ("add_under_min",)]
+    if hasattr(ZonedDateTime, "with_calendar"):
+        ops += [("with_calendar", c) for c in ("ISO", "Julian", "Hebrew Civil") if c in env().cals]
+    if hasattr(ZonedDateTime, "with_zone"):
+        ops.append(("with_zone_same",))
     return ops
 
 
 def zdt_apply(v, op):
     k = op[0]
+    if k == "with_calendar":
+        return v.with_calendar(env().cals[op[1]])
+    if k == "with_zone_same":
+        return v.with_zone(v.zone)
     if k == "add":
         return v + mk_dur(op[1])
     if k == "sub":
@@ -1000,6 +1022,10 @@ def zdt_apply(v, op):
 
 def zdt_model(rg, zs, op):
     k = op[0]
+    if k == "with_calendar":
+        return R.z_create(rg, zs.i, zs.z, op[1], offset_at)
+    if k == "with_zone_same":
+        return R.z_create(rg, zs.i, zs.z, zs.cal, offset_at)
     if k in ("add", "plus"):
         d = op[1]
     elif k in ("sub", "minus"):
@@ -1170,6 +1196,94 @@ def _zlocal_worker(args, acc):
                     acc.outcome("zdt ctor(local, zone, offset): accepted (%s)" % cls)
                     zdt_check(acc, v, R.Z(i, zidx, c), rg, case, False)
     acc.note("zdt ctor sweep %s" % zid, {"transitions": len(tr)})
+    return acc
+
+
+START_ZONES = ("America/Sao_Paulo", "America/Havana", "Asia/Beirut")
+
+
+def zstart_worker(args):
+    return guarded("zdt", _zstart_worker, args, None)
+
+
+def _zstart_worker(args, acc):
+    """DateTimeZone.at_start_of_day / LocalDate.at_start_of_day_in_zone on the dates around EVERY transition of a zone (up to
+    2040), in several calendars: the result is the earliest instant whose local date (at the zone's offset there) is that date;
+    zone and calendar are retained and result.date == date.  Midnight gaps (the day starts later than 00:00) are singled out."""
+    tier, zid, cal_ids = args
+    E = env()
+    rg = E.ranges
+    try:
+        zone = DateTimeZoneProviders.tzdb[zid]
+    except Exception:  # noqa: BLE001
+        acc.degrade("zone %s not available from the tzdb provider" % zid)
+        return acc
+    tr = zone_transitions(zone, 25567 * NSD, rg)
+    trans = sorted(t[0] for t in tr)
+    offc = {}
+
+    def off_at(i):
+        o = offc.get(i)
+        if o is None:
+            o = offc[i] = zone.get_utc_offset(mk_instant(i)).seconds
+        return o
+
+    def start_of_day(d):
+        """Earliest instant whose local day is d: candidates are local midnight read at every nearby offset, and nearby transitions."""
+        L0 = d * NSD
+        near = [t for t in trans if L0 - 2 * NSD <= t <= L0 + 2 * NSD]
+        offs = {off_at(L0 - 2 * NSD), off_at(L0), off_at(L0 + 2 * NSD)}
+        for t in near:
+            offs.add(off_at(t - 1))
+            offs.add(off_at(t))
+        cands = [L0 - o * R.NS_S for o in offs] + near
+        ok = [i for i in cands if rg.instant_ok(i) and R.local_of(i, off_at(i))[0] == d]
+        return min(ok) if ok else None
+
+    days = []
+    for t, ob, oa in tr:
+        for o in (ob, oa):
+            d = R.local_of(t, o)[0]
+            for dd in (d - 1, d, d + 1):
+                if dd not in days:
+                    days.append(dd)
+    if tier == "quick" and len(days) > 240:
+        keep = [R.local_of(t, oa)[0] for t, ob, oa in tr if oa > ob]       # every day that begins after a gap transition
+        days = sorted(set(days[:120] + days[-120:] + keep))
+        acc.cap("quick tier: at_start_of_day on the first and last 120 transition dates of a zone plus every gap date; thorough takes all")
+    for d in days:
+        i = start_of_day(d)
+        if i is None:
+            acc.outcome("at_start_of_day: date skipped entirely or outside the range (not checked)")
+            continue
+        gap = R.local_of(i, off_at(i))[1] != 0
+        for c in cal_ids:
+            if not rg.day_ok(c, d):
+                continue
+            date = expected_date(d, c)
+            zs = R.Z(i, 0, c)
+            for route, fn in (("DateTimeZone.at_start_of_day", lambda: zone.at_start_of_day(date)),
+                              ("LocalDate.at_start_of_day_in_zone", lambda: date.at_start_of_day_in_zone(zone))):
+                acc.count(states=1, transitions=1, evaluations=1)
+                case = {"part": "zstart", "zone": zid, "day": d, "calendar": c, "route": route}
+                cls = "%s,%s" % ("midnight-gap" if gap else "ordinary", _cal_cls(c))
+                try:
+                    v = fn()
+                except Exception as e:  # noqa: BLE001
+                    acc.lib_exception("C11/zdt/at_start_of_day", e, case)
+                    continue
+                o = off_at(i)
+                m = R.M(i, o, c)
+                got = (ins_ns(v.to_instant()), v.offset.seconds, v.calendar.id, v.zone.id, day_of(v.date), v.date.calendar.id, v.time_of_day.nanosecond_of_day)
+                want = (i, o, c, zid, d, c, m.local()[1])
+                if got != want or not (v.date == date) or not (v.zone == zone):
+                    acc.violation("C11/zdt/at_start_of_day/%s" % cls, "%s of day %d (%s) in %s gives (instant, offset, calendar, zone, local day, date calendar, "
+                                  "ns of day) = %r; expected %r; result.date == date is %r" % (route, d, c, zid, got, want, v.date == date), case)
+                else:
+                    acc.outcome("at_start_of_day ok (%s)" % ("midnight gap" if gap else "ordinary"))
+                    if gap or c != "ISO":
+                        acc.count(nontrivial=1)
+    acc.note("at_start_of_day %s" % zid, {"transitions": len(tr), "days": len(days)})
     return acc
 
 # ------------------------------------------------------------------------------------------------ zclock: histories
@@ -1533,6 +1647,12 @@ def run(ctx):
         for acc in pmap(zlocal_worker, _rot(jobs, seed), ctx.procs):
             ctx.merge_part("zdt ctor(local, zone, offset)", acc)
 
+    if not only or "zstart" in only:
+        zs_cals = [c for c in (["ISO", "Julian", "Hebrew Civil", "Persian Simple"] if tier == "quick" else cal_ids) if c in E.cals]
+        zs_zones = list(START_ZONES) + [zid for zid, z in E.zones if type(z).__name__ != "_FixedDateTimeZone"]
+        for acc in pmap(zstart_worker, _rot([(tier, zid, zs_cals) for zid in zs_zones], seed), ctx.procs):
+            ctx.merge_part("zdt at_start_of_day", acc)
+
     if not only or "zclock" in only:
         zc_cals = ["Julian", "Hebrew Civil", "ISO"] if tier == "quick" else ["Julian", "Hebrew Civil", "ISO", "Badi"]
         zc_cals = [c for c in zc_cals if c in E.cals]
@@ -1590,6 +1710,8 @@ def replay(rec) -> bool:
         zidx = [z[0] for z in E.zones].index(zid)
         a = zdt_worker(("thorough", zidx, [case["init"][0]], [case["init"][2]], {case["init"][2]}))
         return bool(a.violations)
+    if part == "zstart":
+        return bool(zstart_worker(("thorough", case["zone"], [case["calendar"]])).violations)
     if part == "zlocal":
         zidx = [z[0] for z in E.zones].index(case["zone"])
         return bool(zlocal_worker(("thorough", zidx, [case["calendar"]])).violations)
